@@ -280,13 +280,25 @@ Lemma refresh_core ls : Forall2 same_core (refresh_up ls) (refresh ls).
 Proof. apply propagate_core. Qed.
 
 (* what the three modes of operation 3 do to everything but the caches *)
+Lemma step3_a4 st b c d :
+  s_levels (fst (step st (3, 4, b, c, d)))
+  = upd_level (s_levels st) (pos_of (s_levels st) b) reset_level.
+Proof. reflexivity. Qed.
+
+Lemma step3_a5 st b c d :
+  s_levels (fst (step st (3, 5, b, c, d)))
+  = upd_level (s_levels st) (pos_of (s_levels st) b)
+              (del_range (Z.to_nat (c mod 5))).
+Proof. reflexivity. Qed.
+
 Lemma step3_core st a b c d :
+  (a =? 4) = false -> (a =? 5) = false ->
   Forall2 same_core
           (if (a =? 0) || (a =? 1) then refresh_up (s_levels st)
            else s_levels st)
           (s_levels (fst (step st (3, a, b, c, d)))).
 Proof.
-  unfold step. cbn [Z.eqb Pos.eqb].
+  intros A4 A5. unfold step. cbn [Z.eqb Pos.eqb].
   destruct (a =? 0) eqn:E0.
   { cbn [orb].
     pose proof (observe_core (s_img st) (length (s_levels st))
@@ -303,7 +315,7 @@ Proof.
     destruct (read_at (s_levels st) (pos_of (s_levels st) b)
                       (Z.to_nat (c mod 5))) as [v ls'].
     exact H.
-  - apply core_refl.
+  - rewrite A4, A5. apply core_refl.
 Qed.
 
 Theorem grow_view : forall ls, view_ok (grow ls).
@@ -325,8 +337,8 @@ Theorem rejuvenate_child_is_view :
     /\ view_ok (s_levels (fst (step st (3, 1, 0, 0, 0)))).
 Proof.
   intros st; split.
-  - eapply view_ok_core; [apply (step3_core st 0 0 0 0)|]. apply refresh_view.
-  - eapply view_ok_core; [apply (step3_core st 1 0 0 0)|]. apply refresh_view.
+  - eapply view_ok_core; [apply (step3_core st 0 0 0 0 eq_refl eq_refl)|]. apply refresh_view.
+  - eapply view_ok_core; [apply (step3_core st 1 0 0 0 eq_refl eq_refl)|]. apply refresh_view.
 Qed.
 
 (* composed over the depth: the columns of the youngest are the root's
@@ -946,14 +958,43 @@ Proof.
   eapply linv_core; [apply refresh_core|]. now apply refresh_up_inv.
 Qed.
 
+Lemma reset_level_inv g l : linv g l -> linv (mkghost [] []) (reset_level l).
+Proof.
+  intros [[Hlen [Hnd _]] [_ HH]]. unfold linv, finv, reset_level.
+  cbn [l_filt]. split; [|split].
+  - unfold keeps. cbn [f_manual f_rids f_mri g_excl].
+    rewrite repeat_length. repeat split; try assumption.
+    + intros j Hj [].
+    + intros r [].
+  - unfold only. cbn [f_manual f_rids f_mri g_ever].
+    rewrite repeat_length. repeat split; try assumption.
+    + intros j Hj Hf. rewrite nth_repeat in Hf by lia. discriminate.
+    + intros r [].
+  - exact HH.
+Qed.
+
 Theorem step_inv st gs op :
   Forall2 linv gs (s_levels st) ->
   Forall2 linv (spec_step st gs op) (s_levels (fst (step st op))).
 Proof.
   intros H. destruct op as [[[[tag a] b] c] d].
   destruct (Z.eqb_spec tag 3) as [->|N3].
-  { change (spec_step st gs (3, a, b, c, d)) with gs.
-    eapply linv_core; [apply step3_core|].
+  { destruct (Z.eqb_spec a 4) as [->|N4].
+    { rewrite step3_a4. unfold spec_step, upd_level.
+      cbn [Z.eqb Pos.eqb andb].
+      destruct (nth_error (s_levels st) (pos_of (s_levels st) b)) as [l|] eqn:El;
+        [|exact H].
+      destruct (Forall2_nth_error _ _ _ _ _ H El) as [g [Eg Hg]].
+      apply Forall2_set_nth; [exact H|]. eapply reset_level_inv; exact Hg. }
+    assert (Hs : spec_step st gs (3, a, b, c, d) = gs).
+    { unfold spec_step. cbn [Z.eqb Pos.eqb andb].
+      destruct (Z.eqb_spec a 4); [contradiction|reflexivity]. }
+    rewrite Hs.
+    destruct (Z.eqb_spec a 5) as [->|N5].
+    { rewrite step3_a5. apply upd_level_inv; [|exact H].
+      intros g l Hl. exact Hl. }
+    eapply linv_core;
+      [apply step3_core; [now apply Z.eqb_neq|now apply Z.eqb_neq]|].
     destruct ((a =? 0) || (a =? 1)); [now apply refresh_up_inv|exact H]. }
   unfold step, spec_step.
   destruct (Z.eqb_spec tag 0) as [->|N0].
@@ -1107,7 +1148,7 @@ Theorem history_rids_after_rejuvenate :
     rids_ok (s_levels (fst (step st (3, 1, 0, 0, 0)))).
 Proof.
   intros n cols ops st gs Hr.
-  eapply rids_ok_core; [apply (step3_core st 1 0 0 0)|].
+  eapply rids_ok_core; [apply (step3_core st 1 0 0 0 eq_refl eq_refl)|].
   eapply refresh_rids. eapply run_inv; [apply init_inv|exact Hr].
 Qed.
 
@@ -1345,7 +1386,8 @@ Proof.
     destruct (key_changed c old s || match b with None => true | Some _ => false end);
       [|exact Hb0].
     destruct d as [dcol|]; [|exact Hb0].
-    destruct (nth s (c_rng c) None) as [[lo hi]|]; [|exact Hb0].
+    destruct (nth s (c_rng c) None) as [[lo hi]|];
+      [|destruct (key_changed c old s); [apply repeat_length|exact Hb0]].
     unfold box_len, box_of. destruct (lo =? hi).
     + apply repeat_length.
     + now rewrite map_length.
@@ -1552,7 +1594,16 @@ Theorem step_wf st op :
 Proof.
   intros H. destruct op as [[[[tag a] b] c] d].
   destruct (Z.eqb_spec tag 3) as [->|N3].
-  { eapply lwf_core; [apply step3_core|].
+  { destruct (Z.eqb_spec a 4) as [->|N4].
+    { rewrite step3_a4. apply upd_level_wf; [|exact H].
+      intros l [Ha [Hl [Hr [Hd [Hb Hh]]]]]. unfold lwf, reset_level.
+      cbn [l_filt l_len l_data f_manual f_all f_rids f_box f_phash].
+      rewrite !repeat_length. repeat split; try assumption.
+      apply Forall_repeat. exact I. }
+    destruct (Z.eqb_spec a 5) as [->|N5].
+    { rewrite step3_a5. apply upd_level_wf; [|exact H]. intros l Hl; exact Hl. }
+    eapply lwf_core;
+      [apply step3_core; [now apply Z.eqb_neq|now apply Z.eqb_neq]|].
     destruct ((a =? 0) || (a =? 1)); [now apply refresh_up_wf|exact H]. }
   unfold step.
   destruct (tag =? 0).
@@ -1850,7 +1901,12 @@ Theorem step_ids n st op :
 Proof.
   intros H. destruct op as [[[[tag a] b] c] d].
   destruct (Z.eqb_spec tag 3) as [->|N3].
-  { eapply ids_ok_core; [apply step3_core|].
+  { destruct (Z.eqb_spec a 4) as [->|N4].
+    { rewrite step3_a4. apply upd_level_ids; [reflexivity|exact H]. }
+    destruct (Z.eqb_spec a 5) as [->|N5].
+    { rewrite step3_a5. apply upd_level_ids; [reflexivity|exact H]. }
+    eapply ids_ok_core;
+      [apply step3_core; [now apply Z.eqb_neq|now apply Z.eqb_neq]|].
     destruct ((a =? 0) || (a =? 1)); [now apply refresh_up_ids|exact H]. }
   unfold step.
   destruct (tag =? 0).
@@ -1958,7 +2014,7 @@ Proof.
   assert (Hids : ids_ok n (s_levels st)).
   { apply step_ids, run_ids, init_ids. }
   assert (Hr : rids_ok (s_levels st)).
-  { eapply rids_ok_core; [apply (step3_core st0 0 0 0 0)|].
+  { eapply rids_ok_core; [apply (step3_core st0 0 0 0 0 eq_refl eq_refl)|].
     eapply refresh_rids; exact Hinv. }
   assert (Hv : view_ok (s_levels st))
     by apply (proj1 (rejuvenate_child_is_view st0)).
@@ -1969,7 +2025,7 @@ Proof.
   split; [|split; [|split]].
   - now apply (rids_compose n).
   - now apply view_composes_to_root.
-  - pose proof (linv_core _ _ _ (step3_core st0 0 0 0 0)
+  - pose proof (linv_core _ _ _ (step3_core st0 0 0 0 0 eq_refl eq_refl)
                           (refresh_up_inv _ _ Hinv)) as Hinv'.
     fold st in Hinv'.
     destruct (In_nth_error _ _ Hin) as [j Hj].
@@ -2406,8 +2462,10 @@ Example ex_stale_read :
 Proof. vm_compute. discriminate. Qed.
 
 
-(* a read with an explicit dtype leaves the same state as a plain read: the
-   cast does not reach the cache, later reads return what they would have *)
+(* Documentation, not a property theorem (definitional: the model has no
+   dtypes; the requested dtype reaches the output only): a read with an
+   explicit dtype leaves the same state as a plain read.  The tie to the code
+   is the harness' comparison of value and dtype of later plain reads. *)
 Theorem cast_read_same_state st b c d :
   fst (step st (3, 2, b, c, d)) = fst (step st (3, 2, b, c, 0)).
 Proof.
